@@ -520,9 +520,228 @@ def gen_mapped(rng, tier):
     return cases
 
 
+DEEP_KINDS = FLAT_KINDS + ["struct"]
+HASHABLE_BAD = [None, 0, -3, "", "a", True, 7]
+
+
+def container_depth(d):
+    """nesting depth of collection declarations (a scalar / class reference is 0)"""
+    subs = ([d["item"]] if isinstance(d.get("item"), dict) else []) + list(d.get("items", [])) + \
+           [d[k] for k in ("key", "val") if isinstance(d.get(k), dict)]
+    if d["k"] in COLLECTION_KINDS:
+        return 1 + max([container_depth(x) for x in subs] or [0])
+    return 0
+
+
+def corrupt_along(rng, vg, d, w, mode, hashable=False, depth=0):
+    """walk the value `w` along its declaration `d` down to ONE position and make it invalid there:
+    a boundary neighbour of the declaration at that position, a payload text, another type.  In
+    `construct` mode a class-reference position is replaced as a whole (its instance is built - and
+    validated - before the outer constructor runs); in `deser` mode the walk continues inside it.
+    Returns the new wire value."""
+    k = d["k"]
+
+    def leaf():
+        r = rng.random()
+        b = vg.boundary(d) if k not in ("struct",) else []
+        if b and r < 0.45:
+            return rng.choice(b)
+        if r < 0.7:
+            return rng.choice(PAYLOADS)
+        pool = list(HASHABLE_BAD) + ([] if hashable else [{"l": []}, {"l": [1, 2]}, {"m": []}, {"m": [["a", 1]]}])
+        return rng.choice(pool)
+
+    if not isinstance(w, dict) or depth > 6 or rng.random() < 0.12:
+        return leaf()
+    if k in ("seqOf", "tupleOf", "setOf"):
+        tag = next((t for t in ("l", "q", "t", "s", "fs") if t in w), None)
+        if tag is None:
+            return leaf()
+        xs = list(w[tag])
+        if not xs:
+            x0 = vg.valid(d["item"])
+            if x0 is gen.NOVALUE:
+                return leaf()
+            xs = [x0]
+        i = rng.randrange(len(xs))
+        xs[i] = corrupt_along(rng, vg, d["item"], xs[i], mode, hashable or k == "setOf", depth + 1)
+        return {tag: xs}
+    if k in ("seqPos", "tuplePos"):
+        tag = next((t for t in ("l", "q", "t") if t in w), None)
+        if tag is None or not w[tag]:
+            return leaf()
+        xs = list(w[tag])
+        i = rng.randrange(min(len(xs), len(d["items"])))
+        xs[i] = corrupt_along(rng, vg, d["items"][i], xs[i], mode, hashable, depth + 1)
+        return {tag: xs}
+    if k == "mapOf" and "m" in w:
+        kvs = [list(kv) for kv in w["m"]]
+        if not kvs:
+            k0, v0 = vg.valid(d["key"]), vg.valid(d["val"])
+            if k0 is gen.NOVALUE or v0 is gen.NOVALUE:
+                return leaf()
+            kvs = [[k0, v0]]
+        i = rng.randrange(len(kvs))
+        if rng.random() < 0.3:
+            kvs[i][0] = corrupt_along(rng, vg, d["key"], kvs[i][0], mode, True, depth + 1)
+        else:
+            kvs[i][1] = corrupt_along(rng, vg, d["val"], kvs[i][1], mode, hashable, depth + 1)
+        return {"m": kvs}
+    if k == "struct" and "o" in w and mode != "construct" and w["o"][1]:
+        kw = [list(kv) for kv in w["o"][1]]
+        fields = dict((n, f) for n, f in d["fields"])
+        idx = [i for i, kv in enumerate(kw) if kv[0] in fields]
+        if idx:
+            i = rng.choice(idx)
+            kw[i][1] = corrupt_along(rng, vg, fields[kw[i][0]], kw[i][1], mode, hashable, depth + 1)
+            return {"o": [w["o"][0], kw]}
+    return leaf()
+
+
+def gen_deep(rng, tier, n_classes):
+    """directed stream for the path model: classes whose fields are collections nested 2..3 levels deep
+    (Array / Deque / Tuple / Set / Map, homogeneous and positional, in every combination the type-directed
+    generator produces) over scalars and class references; a valid argument set, then ONE position at a
+    random depth of one or two fields made invalid (boundary neighbour of the declaration AT that position,
+    payload text, other type, wrong container); through the constructor, fail-fast on/off.
+    Region: the suffix chain `_<i>` / `_key` / `_value` per nesting level that names the rejecting position."""
+    cases = []
+    made = 0
+    tries = 0
+    while made < n_classes and tries < n_classes * 30:
+        tries += 1
+        dg = gen.DeclGen(rng, max_depth=3, allow=DEEP_KINDS, p_constraint=0.45)
+        vg = gen.ValGen(rng)
+        fields = []
+        for nm in rng.sample(["aa", "b_1", "deep", "m2", "tt"], rng.randint(1, 3)):
+            want_struct = rng.random() < 0.3
+            for _ in range(30):
+                # a collection nested >= 2 levels, or a (top-level) class reference
+                fd = dg.class_decl(1, n_fields=rng.randint(1, 3)) if want_struct else dg.decl(0)
+                if (want_struct or container_depth(fd) >= 2) and '"inline"' not in json.dumps(fd):
+                    fields.append([nm, fd])
+                    break
+        if not fields:
+            continue
+        cls = {"k": "struct", "name": f"P{made}", "required": sorted(n for n, _ in fields if rng.random() < 0.4),
+               "addl": rng.random() < 0.5, "fields": fields}
+        C.fix_accepts(cls)
+        base = {}
+        for nm, fd in fields:
+            v = vg.valid(fd)
+            if v is gen.NOVALUE:
+                cls["required"] = [r for r in cls["required"] if r != nm]
+            else:
+                base[nm] = v
+        if not base:
+            continue
+        made += 1
+        names = list(base)
+        decl_of = dict(fields)
+        subs_ = [[x] for x in names] + ([rng.sample(names, 2)] if len(names) > 1 else [])
+        for sub in subs_:
+            for _ in range(2 if tier == "quick" else 4):
+                for mode in ("construct", "deser"):
+                    kw = dict(base)
+                    for nm in sub:
+                        kw[nm] = corrupt_along(rng, vg, decl_of[nm], base[nm], mode)
+                    kwl = [[k, v] for k, v in kw.items()]
+                    rng.shuffle(kwl)
+                    entry = rng.choice(["Deserializer", "deserialize_structure"])
+                    for ff in (True, False):
+                        cases.append({"suite": "errors", "cls": cls, "kw": kwl, "mode": mode, "ff": ff,
+                                      "entry": entry, "sub": sub, "ways": ["deep:" + mode],
+                                      "re": gen.re_table(cls, kwl, [[k, v] for k, v in base.items()])})
+    return cases
+
+
+VIA_KINDS = ["plain", "partial", "allrequired", "extend", "omit", "pick", "subclass", "local"]
+# class names a user may choose (type() accepts any string): word-only names keep the field; names with a
+# character outside [\\w.] are the region of the open finding field-lost:non-word-name
+ODD_CLASS_NAMES = ["Foo_1", "F9", "_Priv", "\u00dcn\u00ef", "Foo.Bar", "x\u0301Cls", "My Class", "a-b", "Gen[int]"]
+
+
+def gen_names(rng, tier):
+    """directed stream: the CLASS NAME is the first component of every message head.  Flat classes used
+    directly and through every class-deriving construct of typedpy - Partial / AllFieldsRequired / Extend /
+    Omit / Pick, without and with an explicit class name, a subclass of a derived class, a class whose
+    __qualname__ differs from its __name__ (local class) - and classes created with unusual names (digits,
+    underscores, dots, non-ASCII letters; a combining mark, a space, '-', '[': the finding's region);
+    one or two fields invalid; constructor and both deserialization entry points, fail-fast on/off.
+    Region: which names typedpy gives the classes it creates, and which names survive the [\\w.]+ group."""
+    cases = []
+    reps = 2 if tier == "quick" else 10
+    ci = 0
+    for _ in range(reps):
+        for via in VIA_KINDS + ["name:" + n for n in ODD_CLASS_NAMES]:
+            ci += 1
+            dg = gen.DeclGen(rng, max_depth=1, allow=FLAT_KINDS, p_constraint=0.4)
+            vg = gen.ValGen(rng)
+            cls = dg.class_decl(0, n_fields=rng.randint(2, 4))
+            cls["name"] = via[5:] if via.startswith("name:") else rng.choice(["Person", "Foo", "Order_2", "T"])
+            cls.pop("ignoreNone", None)
+            base = {}
+            for name, fd in cls["fields"]:
+                v = vg.valid(fd)
+                if v is not gen.NOVALUE:
+                    base[name] = v
+            cls["fields"] = [[n, fd] for n, fd in cls["fields"] if n in base]
+            cls["required"] = [r for r in cls["required"] if r in base]
+            if not base:
+                continue
+            names = list(base)
+            kind = "plain" if via.startswith("name:") else via
+            v = {"kind": kind, "name": rng.choice([None, None, "Renamed", "Bar_9"]) if kind in ("partial", "allrequired", "extend", "omit", "pick") else None}
+            if kind in ("omit", "pick") and len(names) > 1:
+                v["keys"] = sorted(rng.sample(names, 1))
+            elif kind in ("omit", "pick"):
+                continue
+            kept = [n for n in names if (kind != "omit" or n not in v["keys"]) and (kind != "pick" or n in v["keys"])]
+            decl_of = dict((n, fd) for n, fd in cls["fields"])
+            for sub in [[x] for x in kept[:2]] + ([kept[:2]] if len(kept) > 1 else []):
+                kw = {n: base[n] for n in kept}
+                ways = []
+                for nm in sub:
+                    way, bad = invalid_value(rng, vg, decl_of[nm], base[nm])
+                    kw[nm] = bad
+                    ways.append(way)
+                kwl = [[k, x] for k, x in kw.items()]
+                for mode, entry in (("construct", None), ("deser", "Deserializer"), ("deser", "deserialize_structure")):
+                    for ff in (True, False):
+                        cases.append({"suite": "errors", "cls": cls, "kw": kwl, "mode": mode, "ff": ff, "entry": entry,
+                                      "via": v, "sub": sub, "ways": ways + ["via:" + via.split(":")[0] + ("+name" if v["name"] else "")],
+                                      "re": gen.re_table(cls, kwl, [[k, x] for k, x in base.items()])})
+    return cases
+
+
+def derive_class(cls, via):
+    """the class a user obtains from `cls` through one of typedpy's class-deriving constructs"""
+    from typedpy import Partial, AllFieldsRequired, Extend, Omit, Pick
+    kind, name, keys = via["kind"], via.get("name"), via.get("keys") or []
+    if kind == "partial":
+        return Partial[cls, name] if name else Partial[cls]
+    if kind == "allrequired":
+        return AllFieldsRequired[cls, name] if name else AllFieldsRequired[cls]
+    if kind == "extend":
+        return Extend[cls, name] if name else Extend[cls]
+    if kind == "omit":
+        return Omit[cls, keys, name] if name else Omit[cls, keys]
+    if kind == "pick":
+        return Pick[cls, keys, name] if name else Pick[cls, keys]
+    if kind == "subclass":
+        return type(cls.__name__ + "Sub", (Partial[cls],), {})
+    if kind == "local":
+        cls.__qualname__ = "make_model.<locals>." + cls.__name__
+        return cls
+    return cls
+
+
 def gen_cases(rng, tier):
     n = 160 if tier == "quick" else 1400
-    return fixed_cases() + gen_directed(rng, tier) + gen_shared(rng, tier) + gen_mapped(rng, tier) + gen_flat(rng, tier, n) + gen_nested(rng, tier, 60 if tier == "quick" else 500)
+    # the deep stream draws from its own generator seeded from the case stream's rng state AFTER the
+    # older streams, so that their cases stay what they were
+    out = fixed_cases() + gen_directed(rng, tier) + gen_shared(rng, tier) + gen_mapped(rng, tier) + gen_flat(rng, tier, n) + gen_nested(rng, tier, 60 if tier == "quick" else 500)
+    return out + gen_deep(rng, tier, 50 if tier == "quick" else 500) + gen_names(rng, tier)
 
 
 # ------------------------------------------------------------------ documents and lifting
@@ -595,6 +814,11 @@ def inner_field_objs(f):
     if items is None:
         return []
     return list(items) if isinstance(items, (list, tuple)) else [items]
+
+
+def scratch_name(x):
+    n = getattr(x, "_name", None)
+    return n if isinstance(n, str) else None
 
 
 def share_inner_fields(cls, groups, ctx):
@@ -720,7 +944,15 @@ def run_impl(case):
     want = dump.normalize_decl(decl)
     if back != want:
         return {"abstraction_mismatch": {"dumped": back, "declared": want}}
+    if case.get("via"):
+        try:
+            cls = derive_class(cls, case["via"])
+        except Exception as e:
+            return {"unbuildable": f"derive: {type(e).__name__}: {e}"}
     cls_actual = C.fix_accepts(dump.dump_class(cls, ctx))
+    # the same class with every (nested) class's fields in DEFINITION order: the order deserialization
+    # visits them in, at every level (which nested failure comes first decides the exception class)
+    cls_def = C.fix_accepts(dump.dump_class(cls, ctx, order="definition")) if case["mode"] == "deser" else None
     mode = case["mode"]
     decl_of = dict((n, fd) for n, fd in decl["fields"])
     share_inner_fields(cls, case.get("share", []), ctx)
@@ -739,16 +971,17 @@ def run_impl(case):
             lifted = {k: lift(decl_of[k], v) for k, v in kw.items() if v is not None} if mode == "deser" else {}
     except Exception as e:
         return {"unbuildable": f"value: {type(e).__name__}: {e}"}
-    res = {"cls_actual": cls_actual,
+    res = {"cls_actual": cls_actual, "cls_name_real": cls.__name__,
            "kw_actual": [[k, C.rename_inline(dump.dump_value(v, ctx), ctx)] for k, v in lifted.items()]}
     if history:
         res["history"] = history
     if mode == "deser":
+        res["cls_def"] = cls_def
         res["doc_actual"] = [[k, dump.dump_value(v, ctx)] for k, v in kw.items()]
         # the order construct_fields_map visits the fields, and the scratch `_name` every inner Field
         # instance carries right now (left there by earlier constructions; inputs of the Lean model)
         res["order"] = list(cls.get_all_fields_by_name())
-        res["scratch"] = [[n, [getattr(x, "_name", None) for x in inner_field_objs(getattr(cls, n))]]
+        res["scratch"] = [[n, [scratch_name(x) for x in inner_field_objs(getattr(cls, n))]]
                           for n in res["order"] if inner_field_objs(getattr(cls, n))]
     # the document as handed to the real code: every field under its mapped (document) key
     keymap = dict(mp["map"]) if mp else {}
@@ -856,13 +1089,27 @@ def all_texts(msg, depth=0):
 def line(case, impl):
     l = {"suite": "errors", "cls": impl.get("cls_actual", case["cls"]), "kw": impl.get("kw_actual", []),
          "ff": bool(case["ff"]), "mode": case["mode"], "re": case.get("re", [])}
+    if case.get("via"):
+        # a derived class: its NAME is the model's (Lean `derivedName`), not read off the real class
+        v = case["via"]
+        l["via"] = v["kind"]
+        l["baseName"] = case["cls"]["name"] + ("Sub" if v["kind"] == "subclass" else "")
+        if v["kind"] == "subclass":
+            l["via"] = "plain"
+        if v.get("name"):
+            l["viaName"] = v["name"]
     if impl.get("doc_actual") is not None:
         l["doc"] = impl["doc_actual"]
         if impl.get("mapper"):
             l["doc"] = impl["raw_doc_actual"]
             l["mapper"] = impl["mapper"]
         l["order"] = impl.get("order", [])
+        if impl.get("cls_def") is not None:
+            l["clsDef"] = impl["cls_def"]
         l["scratch"] = impl.get("scratch", [])
+        # keep_undefined as deserialize_structure_internal receives it (Deserializer.deserialize passes
+        # None on for a class that allows additional properties)
+        l["keepUndefined"] = bool(case.get("entry") == "deserialize_structure" or not case["cls"].get("addl", True))
     if impl.get("msg") is not None:
         l["msg"] = impl["msg"]
         # oracle answers for `\w`: the non-ASCII characters of the message that str.isalnum() accepts
@@ -992,10 +1239,15 @@ def construct_correspondence(case, impl, model):
 
 def names_field(path, cls_name, name):
     """does the path text name the top-level field (optional class prefix, optional element suffix)"""
-    return re.fullmatch(r"(?:" + re.escape(cls_name) + r"\.)?" + re.escape(name) + r"(?:_\d+|_key|_value)?", path or "") is not None
+    return re.fullmatch(r"(?:" + re.escape(cls_name) + r"\.)?" + re.escape(name) + r"(?:_\d+|_key|_value)*", path or "") is not None
 
 
-def path_of_text(t):
+def path_of_text(t, cls_name=None):
+    """the leading `<path>: ` of a message; a known class prefix is taken literally (a class name may
+    contain any character, e.g. a space)"""
+    if cls_name and t.startswith(cls_name + "."):
+        m = re.match(r"([^:\s]+): ", t[len(cls_name) + 1:])
+        return cls_name + "." + m.group(1) if m else None
     m = re.match(r"([^:\s]+): ", t)
     return m.group(1) if m else None
 
@@ -1022,13 +1274,23 @@ def classify_no_path(text, raised, mode, ff, invalid_kinds, supplied_kinds, inne
     return "no-path:other"
 
 
-def classify_lost(text, path):
+def classify_lost(text, path, declared=""):
     if path is not None and re.fullmatch(r"[\w.]+", path) is None:
-        # a name with a character that is neither str.isalnum() nor `_` (e.g. a combining mark)
+        # a name with a character that is neither str.isalnum() nor `_` (e.g. a combining mark): the open
+        # finding covers names the USER chose (class, explicit derived-class name, fields); a non-word character
+        # that none of them contains was put there by typedpy (the name it gave a class it created)
+        if any(re.fullmatch(r"[\w.]", ch) is None and ch not in declared for ch in path):
+            return "field-lost:non-word-name:generated-class-name"
         return "field-lost:non-word-name"
     if "\n" in text:
         return "field-lost:newline"
     return "field-lost:other"
+
+
+def in_domain(mode, model):
+    """the statement's domain: flat classes; for the constructor also the path model's extended domain
+    (collections nested to any depth over scalars and class references)"""
+    return bool(model.get("flat") or (mode in ("construct", "deser") and model.get("path")))
 
 
 def oracle(case, impl, model):
@@ -1045,7 +1307,7 @@ def oracle(case, impl, model):
         where += f" mapper={case['mapper']['mode']}"
     if raised is None:
         # an invalid input must be rejected (modelled, flat cases; the invalid set comes from Lean `validate`)
-        if mode in ("construct", "deser") and model.get("flat") and model.get("invalid") and "raised" in impl \
+        if mode in ("construct", "deser") and in_domain(mode, model) and model.get("invalid") and "raised" in impl \
                 and model.get("kind") != "bind":
             fails.append(("invalid-input-accepted",
                           f"supplied fields {model['invalid']} are invalid but nothing was raised [{where}]"))
@@ -1073,12 +1335,14 @@ def oracle(case, impl, model):
                 fails.append(("wrong-field:document-key",
                               f"the message path is the document key, not the field (mapper {case['mapper']}): {t!r} [{where}]"))
                 break
-    if mode == "nested" or not model.get("flat"):
+    if mode == "nested" or not in_domain(mode, model):
         return fails
     invalid = model["invalid"]
     if not invalid:
         return fails
-    cls_name = case["cls"]["name"]
+    # the class name the message heads must carry: the declared one; for a class typedpy derived, the name the
+    # Lean model gives it (derivedName) - never read off the real class
+    cls_name = (model.get("clsName") if case.get("via") else None) or case["cls"]["name"]
     invalid_kinds = set()
     supplied = [k for k, _ in case["kw"]]
     supplied_kinds = set(fd["k"] for n, fd in case["cls"]["fields"] if n in supplied)
@@ -1118,7 +1382,7 @@ def oracle(case, impl, model):
     if mode == "construct" or (mode == "deser" and not model.get("phase1")):
         cs = model.get("sites", [])
         if len(cs) == len(texts):
-            aligned = [{"top": x["top"], "kind": "named"} for x in cs]
+            aligned = [{"top": x["top"], "kind": "named", "path": x.get("path")} for x in cs]
 
     def own(idx):
         return [aligned[idx]["top"]] if aligned else invalid
@@ -1130,6 +1394,10 @@ def oracle(case, impl, model):
         kind = aligned[idx]["kind"]
         if kind == "foreign":
             return "no-path:unhashable:deser-set"
+        if kind == "nested":
+            # a dict document of a top-level class-reference field: the nested structure's error is
+            # passed through without the outer field's name
+            return "no-path:nested-structure:deser-classref"
         if kind == "inner":
             p = path_of_text(bare)
             if p is None or p == "None":
@@ -1144,11 +1412,18 @@ def oracle(case, impl, model):
 
     # (2) every message begins with a path naming ITS invalid supplied field
     for idx, t in enumerate(texts):
-        p = path_of_text(t)
+        p = path_of_text(t, cls_name)
         hit = [n for n in own(idx) if n in invalid and p is not None and names_field(p, cls_name, n)]
         if not hit:
             lost_keys.append((site_key(idx, t, "no-path:other"),
                               f"message does not begin with a path naming its invalid field {own(idx) if aligned else invalid} (invalid={invalid}): {t!r} [{where}]"))
+        elif aligned and aligned[idx].get("path") is not None:
+            # the constructor's message names the POSITION: the top-level field followed by one suffix per
+            # nesting level down to the first rejected element (computed by Lean `locate` from `validate`)
+            bare = re.sub(r"^" + re.escape(cls_name) + r"\.", "", p)
+            if bare != aligned[idx]["path"]:
+                fails.append(("wrong-position:suffix-chain",
+                              f"the path {p!r} names field {hit[0]} but not the rejected position {aligned[idx]['path']!r}: {t!r} [{where}]"))
     # (3) every ErrorInfo carries such a field and a non-empty problem
     for idx, i in enumerate(infos):
         hit = [n for n in (own(idx) if idx < len(texts) else invalid) if n in invalid and names_field(i.get("field"), cls_name, n)]
@@ -1159,9 +1434,10 @@ def oracle(case, impl, model):
             if not prob:
                 fails.append(("empty-problem", f"ErrorInfo.problem is empty for {t!r} [{where}]"))
         else:
-            p = path_of_text(t)
+            p = path_of_text(t, cls_name)
             if p is not None and any(names_field(p, cls_name, n) for n in (own(idx) if idx < len(texts) else invalid)):
-                lost_keys.append((classify_lost(t, p),
+                declared = cls_name + "".join(n for n, _ in case["cls"]["fields"]) + ((case.get("via") or {}).get("name") or "")
+                lost_keys.append((classify_lost(t, p, declared),
                                   f"ErrorInfo.field={i.get('field')!r} does not name the invalid field although the message does: {t!r} [{where}]"))
             # else: already reported under (2)
     seen = set()
